@@ -53,6 +53,14 @@ def to_program(pid, hist, style="guarded"):
             n += 1
             stack.append(body)
             kinds.append("guard")
+        elif a == "enter_const":
+            body = []
+            stack[-1].append({"op": "guarded", "cond": {"c": 1}, "body": body, "tag": "constguard"})
+            stack.append(body)
+            kinds.append("guard")
+        elif a == "setign_in":
+            stack[-1].append({"op": "ignore", "v": bool(h["c"]), "tag": "inside"})
+            n += 1
         elif a == "enter_rejected":
             stack[-1].append({"op": "new", "kind": "priv", "ty": "int", "v": 2, "tag": "cond"})
             stack[-1].append({"op": "guarded", "cond": {"r": n}, "body": []})
@@ -107,15 +115,15 @@ def view(tr):
         elif op == "try_enter":
             ev["ev"] = "try_enter"
         elif op == "body_enter":
-            ev["ev"] = "enter"
             c = e["args"][0][0]
+            ev["ev"] = "enter_const" if c["k"] in ("pyint", "pybool") else "enter"
             ev["c"] = c["v"]
         elif op == "guarded":
             ev["ev"] = "leave" if e["out"] == "ok" else ("abort" if e.get("entered") else "rejected")
         elif op == "try":
             ev["ev"] = "try_caught" if e.get("caught") else "try_done"
         elif op == "ignore":
-            ev["ev"] = "setign"
+            ev["ev"] = "setign_in" if e.get("tag") == "inside" else "setign"
             ev["c"] = 1 if g["ign"] else 0
         elif op == "end" or e.get("tag") == "cond":
             ev["ev"] = "marker"
@@ -130,7 +138,7 @@ def view(tr):
 
 def main(tier):
     run = common.Run("C08", tier)
-    maxlen, maxdepth = (6, 3) if tier == "quick" else (8, 4)
+    maxlen, maxdepth = (5, 3) if tier == "quick" else (7, 4)
     check_design(run, maxlen, maxdepth)
     hists = gen_histories(run, maxlen if tier == "quick" else 7, maxdepth)
     # the same machinery with all four exception kinds (shorter histories: the kind multiplies the space)
